@@ -280,6 +280,15 @@ func (f *fields) delAt(i int) bool {
 	copy(a[i:], a[i+1:])
 	a[len(a)-1] = nil
 	f.a = a[:len(a)-1]
+
+	// the elements that moved down are known under their new index now
+	for j := i; j < len(f.a); j++ {
+		if v := f.a[j]; v != nil {
+			ctx := v.Context()
+			ctx.field = fmt.Sprintf("%d", j)
+			v.SetContext(ctx)
+		}
+	}
 	return true
 }
 
